@@ -81,6 +81,7 @@ type foRun struct {
 	cancels map[string]context.CancelFunc
 	drift   []string
 	ops     int
+	seed    int64
 }
 
 func (r *foRun) snapshot() foSnapJ {
@@ -393,6 +394,20 @@ func (r *foRun) exec(b []foStepJ) {
 				r.driftf("%s: process parked at %q, model %q (%s)", where, got, want, l.Pca)
 			}
 
+			// Every third time a builder is entered: the caller's context is cancelled while the builder is still
+			// running.  A synchronous build goes on under the cancelled context and its result counts like any other;
+			// a background build does not even see it (detached context).
+			if a != nil && a.kind == "bend" && f.Name != "BEnd" && (int(r.seed)+i)%3 == 0 {
+				r.s.mu.Lock()
+				c := r.cancels[f.P]
+				r.s.mu.Unlock()
+
+				if c != nil {
+					c()
+					r.s.rec(Event{Ev: "midcancel", P: f.P})
+				}
+			}
+
 			if a != nil && a.kind == "beWrite" && l.Pca == "refreshw" && a.ttl != r.cfg.UpdTTL {
 				r.driftf("%s: refresh write carries ttl %d, model %d", where, a.ttl, r.cfg.UpdTTL)
 			}
@@ -484,7 +499,7 @@ func runFoSchedule(t *testing.T, cfg FoCfg, bi int, b []foStepJ, seed int64) (ou
 	s := newSched(km, cfg.unit(), cfg.Keys)
 	s.steer = true
 	stat := NewStatRec()
-	r := &foRun{cfg: cfg, s: s, stat: stat, km: km, u: cfg.unit(), results: map[string]*foResJ{},
+	r := &foRun{cfg: cfg, s: s, stat: stat, km: km, u: cfg.unit(), results: map[string]*foResJ{}, seed: seed + int64(bi),
 		cells: map[string]int{}, ctxs: map[string]context.Context{}, cancels: map[string]context.CancelFunc{}}
 	r.fo = newFo(cfg, s, stat, func() time.Time { return r.t0 })
 	s.onFail = func(p string) {
@@ -638,7 +653,7 @@ func runFoWalk(t *testing.T, cfg FoCfg, wi int, seed int64, maxFaults, maxFails,
 	s := newSched(km, cfg.unit(), cfg.Keys)
 	s.steer = true
 	stat := NewStatRec()
-	r := &foRun{cfg: cfg, s: s, stat: stat, km: km, u: cfg.unit(), results: map[string]*foResJ{},
+	r := &foRun{cfg: cfg, s: s, stat: stat, km: km, u: cfg.unit(), results: map[string]*foResJ{}, seed: seed + int64(wi),
 		cells: map[string]int{}, ctxs: map[string]context.Context{}, cancels: map[string]context.CancelFunc{}}
 	r.fo = newFo(cfg, s, stat, func() time.Time { return r.t0 })
 	s.onFail = func(p string) {
